@@ -381,6 +381,12 @@ def rule_state_check(run):
     visits = any(isinstance(c.func, ast.Attribute) and c.func.attr == "visit_objects" and c.args and dotted(c.args[0]) == chk.node.name
                  and dotted(c.func.value) == (loop.target.id if isinstance(loop.target, ast.Name) else None)
                  for s in loop.body for c in calls_in(s))
+    # index / offset operands of references are objects of the state as well (an awaited `vec[idx]` reads the index temporary)
+    ref_visit = any((isinstance(c.func, ast.Attribute) and c.func.attr == "visit_referenced_objects" or dotted(c.func) in ("_visit_referenced_objects", "ir._visit_referenced_objects"))
+                    and any(dotted(a) == chk.node.name for a in c.args) for s_ in loop.body for c in calls_in(s_))
+    run.ob(ref_visit, "StatemachineContext._check_temporaries", file=rp.rel, line=loop.lineno, detail="index-operands",
+           expected="the per-state check also covers index/offset operands of references (visit_referenced_objects)",
+           found="ok" if ref_visit else "visit_objects only: the index temporary of `await vec[idx]` is written in one state and read in the next, unchecked")
     run.ob(visits and inside, "StatemachineContext._check_temporaries", file=rp.rel, line=loop.lineno, detail="applied-per-state",
            expected="state.visit_objects(check) for every state", found="ok" if visits and inside else "not applied per state")
     run.end()
